@@ -138,7 +138,7 @@ func shortFn(s string) string {
 	return s
 }
 
-func partO(r *vh.Run, base string) {
+func partO(r *vh.Run, base string) (broken []string) {
 	bin, race := buildRaceWorker(r)
 	repo := envOr("VERIF_REPO", "/repo")
 	pr := prepare(base, repo, r.Thorough(), true)
@@ -179,96 +179,164 @@ func partO(r *vh.Run, base string) {
 			r.Count("crypto-reference-ok")
 		}
 	}
-	outFile := filepath.Join(r.Dir, "worker.json")
-	raceLog := filepath.Join(r.Dir, "racelog")
-	cmd := exec.Command(bin, "--worker", "--seed", strconv.FormatInt(r.Seed, 10), "--tier", r.Tier, "--report", outFile,
-		"--repo", repo, "--tmp", base)
-	cmd.Env = append(os.Environ(), "GORACE=log_path="+raceLog+" halt_on_error=0")
-	var stderr bytes.Buffer
-	cmd.Stdout = &stderr
-	cmd.Stderr = &stderr
-	limit := time.Duration(r.Pick(900, 2400)) * time.Second
-	done := make(chan error, 1)
-	if err := cmd.Start(); err != nil {
-		panic(err)
-	}
-	go func() { done <- cmd.Wait() }()
-	var werr error
-	hung := false
-	select {
-	case werr = <-done:
-	case <-time.After(limit):
-		hung = true
-		cmd.Process.Kill()
-		<-done
-	}
-	os.WriteFile(filepath.Join(r.Dir, "worker.log"), stderr.Bytes(), 0o644)
-	input := map[string]any{"seed": r.Seed, "tier": r.Tier, "worker": bin, "race": race}
-
-	var rep report
-	if b, err := os.ReadFile(outFile); err == nil {
-		json.Unmarshal(b, &rep)
-	}
-	tail := stderr.String()
-	if len(tail) > 1500 {
-		tail = tail[len(tail)-1500:]
-	}
-	switch {
-	case hung:
-		r.OracleFail("hang:worker-did-not-finish", input, "the concurrent workload did not finish within "+limit.String()+" (deadlock?): "+tail)
-	case !rep.Done:
-		// fatal error: concurrent map read and map write / all goroutines are asleep / panic outside an op
-		class := "crash:worker"
-		if m := regexp.MustCompile(`fatal error: ([^\n]+)`).FindStringSubmatch(stderr.String()); m != nil {
-			class = "crash:" + strings.ReplaceAll(strings.TrimSpace(m[1]), " ", "-")
+	// One worker PROCESS per GOMAXPROCS value (set through the environment).  Changing GOMAXPROCS inside a
+	// race-instrumented process crashed the race runtime itself (SIGSEGV in __tsan::ThreadContext::OnFinished
+	// under runtime.GOMAXPROCS -> procresize, no pdfcpu frame involved), so it is never changed at run time.
+	seen := map[string]int{}
+	totalChecks, totalBad := 0, 0
+	var allUnstable []string
+	for _, p := range []int{1, 2, 4, 16} {
+		var rep report
+		var stderr string
+		var werr error
+		hung := false
+		limit := time.Duration(r.Pick(600, 1500)) * time.Second
+		raceLog := filepath.Join(r.Dir, fmt.Sprintf("racelog-p%d", p))
+		for attempt := 1; attempt <= 2; attempt++ {
+			outFile := filepath.Join(r.Dir, fmt.Sprintf("worker-p%d.json", p))
+			os.Remove(outFile)
+			old, _ := filepath.Glob(raceLog + ".*")
+			for _, f := range old {
+				os.Remove(f)
+			}
+			cmd := exec.Command(bin, "--worker", "--seed", strconv.FormatInt(r.Seed, 10), "--tier", r.Tier, "--report", outFile,
+				"--repo", repo, "--tmp", base, "--procs", strconv.Itoa(p))
+			cmd.Env = append(os.Environ(), "GORACE=log_path="+raceLog+" halt_on_error=0", "GOMAXPROCS="+strconv.Itoa(p))
+			var buf bytes.Buffer
+			cmd.Stdout = &buf
+			cmd.Stderr = &buf
+			done := make(chan error, 1)
+			if err := cmd.Start(); err != nil {
+				panic(err)
+			}
+			go func() { done <- cmd.Wait() }()
+			hung = false
+			select {
+			case werr = <-done:
+			case <-time.After(limit):
+				hung = true
+				cmd.Process.Kill()
+				<-done
+			}
+			stderr = buf.String()
+			os.WriteFile(filepath.Join(r.Dir, fmt.Sprintf("worker-p%d.log", p)), buf.Bytes(), 0o644)
+			rep = report{}
+			if b, err := os.ReadFile(outFile); err == nil {
+				json.Unmarshal(b, &rep)
+			}
+			if rep.Done || hung || deathIsPdfcpu(stderr) {
+				break
+			}
+			// died for a reason that does not involve pdfcpu (race runtime, resources, harness): try once more
+			r.Count("worker-died-without-pdfcpu-frames:retried")
+			fmt.Fprintf(os.Stderr, "C40: worker gomaxprocs=%d died (%v) without a pdfcpu frame in the failing goroutine (attempt %d):\n%s\n", p, werr, attempt, headLines(stderr, 60))
 		}
-		r.OracleFail(class, input, fmt.Sprintf("worker exited (%v) before finishing: %s", werr, tail))
+		input := map[string]any{"seed": r.Seed, "tier": r.Tier, "worker": bin, "race": race, "gomaxprocs": p}
+		switch {
+		case hung:
+			// every operation of the pool terminates when run alone, so a workload that does not finish is a deadlock/livelock
+			r.OracleFail("hang:worker-did-not-finish", input, "the concurrent workload did not finish within "+limit.String()+" (deadlock?); first lines of the worker's output:\n"+headLines(stderr, 200))
+		case !rep.Done && deathIsPdfcpu(stderr):
+			// fatal error: concurrent map read and map write / all goroutines are asleep / unrecovered panic in a goroutine started by pdfcpu
+			class := "crash:worker"
+			if m := regexp.MustCompile(`(?m)^(?:fatal error|panic): ([^\n]+)`).FindStringSubmatch(stderr); m != nil {
+				msg := regexp.MustCompile(`0x[0-9a-f]+|\d+`).ReplaceAllString(strings.TrimSpace(m[1]), "N")
+				if len(msg) > 60 {
+					msg = msg[:60]
+				}
+				class = "crash:" + strings.ReplaceAll(msg, " ", "-")
+			}
+			r.OracleFail(class, input, fmt.Sprintf("worker exited (%v) before finishing; first lines of its output (fatal message and the failing goroutine):\n%s", werr, headLines(stderr, 200)))
+		case !rep.Done:
+			// not attributable to pdfcpu: a BROKEN RUN, neither a property violation nor OK
+			broken = append(broken, fmt.Sprintf("race worker gomaxprocs=%d died twice (%v) with no pdfcpu frame in the failing goroutine; first lines of its output:\n%s", p, werr, headLines(stderr, 200)))
+		}
+		for k, v := range rep.Counts {
+			r.CountN(k, v)
+		}
+		for _, s := range rep.Setup {
+			r.Count("setup:" + s)
+		}
+		allUnstable = rep.Unstable
+		sentinelFail(fmt.Sprintf("concurrent worker gomaxprocs=%d", p), rep.Sentinels)
+		bad := len(rep.Mismatches)
+		totalChecks += rep.Checks
+		totalBad += bad
+		for i := 0; i < rep.Checks-bad; i++ {
+			r.OracleOK()
+		}
+		for _, m := range rep.Mismatches {
+			in := map[string]any{"seed": r.Seed, "tier": r.Tier, "op": m.Op, "gomaxprocs": m.Procs, "goroutines": m.G, "round": m.Round, "fresh_state": m.Fresh}
+			class := "nondeterministic:" + m.Kind
+			if strings.HasPrefix(m.Got, "panic:") {
+				class = "panic:" + m.Kind
+			}
+			r.OracleFail(class, in, "sequential result "+m.Want+" concurrent result "+m.Got)
+		}
+		// race detector reports
+		logs, _ := filepath.Glob(raceLog + ".*")
+		n0 := len(seen)
+		for _, lf := range logs {
+			b, _ := os.ReadFile(lf)
+			for _, blk := range reRaceSplit.Split(string(b), -1) {
+				if !strings.Contains(blk, "WARNING: DATA RACE") {
+					continue
+				}
+				c := raceClass(blk)
+				seen[c]++
+				if seen[c] <= 3 {
+					if len(blk) > 3500 {
+						blk = blk[:3500]
+					}
+					r.OracleFail(c, input, blk)
+				}
+			}
+		}
+		if race && len(seen) == n0 && rep.Done {
+			r.OracleOK() // the race detector watched this whole process and reported nothing new
+		}
 	}
-	for k, v := range rep.Counts {
-		r.CountN(k, v)
-	}
-	for _, s := range rep.Setup {
-		r.Count("setup:" + s)
-	}
-	for _, u := range rep.Unstable {
+	for _, u := range allUnstable {
 		r.Count("sequentially-unstable:" + u)
 	}
-	sentinelFail("concurrent worker", rep.Sentinels)
-	bad := len(rep.Mismatches)
-	for i := 0; i < rep.Checks-bad; i++ {
-		r.OracleOK()
+	r.Sample(map[string]any{"worker_checks": totalChecks, "mismatches": totalBad, "race_classes": seen, "unstable": allUnstable})
+	return broken
+}
+
+// headLines returns the first n lines of s (the fatal message of a dying Go process comes first).
+func headLines(s string, n int) string {
+	l := strings.SplitAfterN(s, "\n", n+1)
+	if len(l) > n {
+		l = l[:n]
 	}
-	for _, m := range rep.Mismatches {
-		in := map[string]any{"seed": r.Seed, "tier": r.Tier, "op": m.Op, "gomaxprocs": m.Procs, "goroutines": m.G, "round": m.Round, "fresh_state": m.Fresh}
-		class := "nondeterministic:" + m.Kind
-		if strings.HasPrefix(m.Got, "panic:") {
-			class = "panic:" + m.Kind
+	out := strings.Join(l, "")
+	if len(out) > 16000 {
+		out = out[:16000]
+	}
+	return out
+}
+
+// deathIsPdfcpu decides whether the death of a worker is attributable to pdfcpu: the goroutine that was
+// running when the process died (the first goroutine block marked [running] / the block that follows the
+// fatal message) has a pdfcpu frame, or the Go runtime detected a deadlock ("all goroutines are asleep")
+// or a concurrent map access (thrown from the accessing goroutine).  A crash inside the race runtime, the
+// scheduler or the harness's own frames only is not.
+func deathIsPdfcpu(out string) bool {
+	if strings.Contains(out, "all goroutines are asleep") {
+		return true
+	}
+	i := strings.Index(out, "[running]")
+	if i < 0 {
+		i = strings.Index(out, "goroutine ")
+		if i < 0 {
+			return false
 		}
-		r.OracleFail(class, in, "sequential result "+m.Want+" concurrent result "+m.Got)
 	}
-	// race detector reports
-	logs, _ := filepath.Glob(raceLog + ".*")
-	seen := map[string]int{}
-	for _, lf := range logs {
-		b, _ := os.ReadFile(lf)
-		for _, blk := range reRaceSplit.Split(string(b), -1) {
-			if !strings.Contains(blk, "WARNING: DATA RACE") {
-				continue
-			}
-			c := raceClass(blk)
-			seen[c]++
-			if seen[c] <= 3 {
-				if len(blk) > 3500 {
-					blk = blk[:3500]
-				}
-				r.OracleFail(c, input, blk)
-			}
-		}
+	blk := out[i:]
+	if j := strings.Index(blk, "\n\n"); j >= 0 {
+		blk = blk[:j]
 	}
-	if race && len(seen) == 0 && rep.Done {
-		r.OracleOK() // the race detector watched the whole workload and reported nothing
-	}
-	r.Sample(map[string]any{"worker_checks": rep.Checks, "mismatches": bad, "race_classes": seen, "unstable": rep.Unstable, "setup": rep.Setup})
+	return strings.Contains(blk, "pdfcpu/pkg/")
 }
 
 // ---------------------------------------------------------------- worker side
@@ -794,8 +862,9 @@ func workerMain(args []string) {
 	repOut := fs.String("report", "", "")
 	repo := fs.String("repo", "/repo", "")
 	tmp := fs.String("tmp", os.TempDir(), "")
+	procsFlag := fs.Int("procs", 0, "")
 	fs.Parse(args)
-	rng := rand.New(rand.NewSource(*seed*7919 + 40))
+	rng := rand.New(rand.NewSource(*seed*7919 + 40 + int64(*procsFlag)*1000003))
 	thorough := *tier == "thorough"
 	rep := report{Counts: map[string]int{}}
 	writeReport := func() {
@@ -813,6 +882,10 @@ func workerMain(args []string) {
 		fmt.Fprintf(os.Stderr, "C40 worker: %-22s at %6.1fs\n", what, time.Since(t0).Seconds())
 	}
 
+	if os.Getenv("C40_SELFTEST_DIE") != "" {
+		// self-test of the death attribution in partO: die without any pdfcpu frame
+		panic("C40 self-test: worker dies for a harness reason")
+	}
 	pr := prepare(*tmp, *repo, thorough, false)
 	rep.Setup = pr.notes
 	pool := pr.pool
@@ -831,15 +904,19 @@ func workerMain(args []string) {
 	lap("set-up done")
 
 	// ---- concurrent rounds ----
-	procs := []int{1, 2, 4, 16}
+	// GOMAXPROCS comes from the environment of this process and is never changed here (see partO)
+	procs := []int{runtime.GOMAXPROCS(0)}
+	if *procsFlag > 0 && *procsFlag != procs[0] {
+		fmt.Fprintf(os.Stderr, "C40 worker: GOMAXPROCS is %d, expected %d\n", procs[0], *procsFlag)
+	}
 	gs := []int{2, 4, 8, 16, 32}
-	rounds := 12
+	rounds := 3 // per worker process (one process per GOMAXPROCS value)
 	opsPer := 3
-	budget := 15 * time.Second
+	budget := 5 * time.Second
 	if thorough {
-		rounds = 400
+		rounds = 100
 		opsPer = 4
-		budget = 300 * time.Second
+		budget = 75 * time.Second
 	}
 	var mu sync.Mutex
 	// ---- stress phase: only the (cheap) operations on the shared package-level state, many of
@@ -851,7 +928,6 @@ func workerMain(args []string) {
 		iters = 400
 	}
 	for _, p := range procs {
-		runtime.GOMAXPROCS(p)
 		font.VerifC40ResetUserFonts()
 		pdfcpu.VerifC40ResetCertPool()
 		g := 8
@@ -896,7 +972,6 @@ func workerMain(args []string) {
 		if len(crypto) == 0 {
 			break
 		}
-		runtime.GOMAXPROCS(p)
 		g := 8
 		seeds := make([]int64, g)
 		for i := range seeds {
@@ -944,7 +1019,6 @@ func workerMain(args []string) {
 		if len(poison) == 0 || len(victims) == 0 {
 			break
 		}
-		runtime.GOMAXPROCS(p)
 		g := 8
 		seeds := make([]int64, g)
 		for i := range seeds {
@@ -988,7 +1062,7 @@ func workerMain(args []string) {
 	lap("poisoner phase")
 	tc := time.Now()
 	for round := 0; round < rounds; round++ {
-		if round >= 4 && time.Since(tc) > budget {
+		if round >= 2 && time.Since(tc) > budget {
 			rep.Counts["rounds-cut-by-time-budget"] = rounds - round
 			break
 		}
@@ -997,7 +1071,6 @@ func workerMain(args []string) {
 		if !thorough && g > 16 && round%5 != 0 {
 			g = 8
 		}
-		runtime.GOMAXPROCS(p)
 		fresh := rng.Intn(2) == 0
 		if fresh {
 			// start-up state: the first LoadUserFonts / LoadCertificates race with each other
